@@ -219,12 +219,21 @@ fn check(c: &Case, ctx: &Ctx, via_cli: bool) -> Outcome {
             let res = if k <= 31 { save_table::<u64>(&t, k, rc, &d.join("t.skf"), false) } else { save_table::<u128>(&t, k, rc, &d.join("t.skf"), false) };
             res.map_err(Outcome::Infra)?;
         }
+        // a third of the command-line cases: the input is a suffix-less file `t` (what `ska weed -o t` leaves
+        // behind) sitting next to a `t.skf` that holds a different table; the file that was named is the input
+        let bare = dir.is_some() && t.rows.len() >= 2 && (t.rows.len() + 2 * n + k / 2) % 3 == 0;
+        if let (true, Some(d)) = (bare, &dir) {
+            std::fs::rename(d.join("t.skf"), d.join("t")).map_err(|e| Outcome::Infra(e.to_string()))?;
+            let decoy = Table { names: t.names.clone(), rows: t.rows.iter().step_by(2).map(|(a, b)| (a.clone(), b.clone())).collect() };
+            let res = if k <= 31 { save_table::<u64>(&decoy, k, rc, &d.join("t.skf"), false) } else { save_table::<u128>(&decoy, k, rc, &d.join("t.skf"), false) };
+            res.map_err(Outcome::Infra)?;
+        }
         let mut first = (0, 0);
         for (i, f) in [&c.flags, &strict].iter().enumerate() {
             let aln = if let Some(d) = &dir {
                 let mut args: Vec<String> = vec!["align".into()];
                 args.extend(align_args(f, n));
-                args.push("t.skf".into());
+                args.push(if bare { "t".into() } else { "t.skf".into() });
                 // half of the cases write to a file with -o instead of stdout
                 let to_file = (t.rows.len() + n + i) % 2 == 1;
                 if to_file {
